@@ -10,7 +10,7 @@ C01CtxText == "(def x 10) (def f (fn [x & y] (trace! (list :f x y)) (if x (first
 C01CtxForms == ReadAll(C01CtxText)
 
 C01G == Grammar(
-  <<"0", "1", "nil", "false", "\"\"", "()", "x", "y", "(g)", "(do)">>,
+  <<"0", "1", "nil", "false", "\"\"", "()", "x", "y", "(g)", "(do)", "(f)">>,
   <<"(trace! _1)", "(def x _1)", "(def y _1)", "(quote _1)", "(f _1)", "(fn [y] _1)", "((fn [] _1))">>,
   <<"(if _1 _2)", "(do _1 _2)", "(let [x _1] _2)", "(let [y _1] _2)", "((fn [y] _2) _1)",
     "((fn [& y] _2) _1)", "(+ _1 _2)", "(list _1 _2)", "(f _1 _2)", "(_1 _2)">>,
